@@ -14,7 +14,9 @@ CFG = dict(
                  "truly concurrent updates are covered by the theorems' quantification over all histories, not exercised by the quick tier",
                  "NULL key components match NULL (as coded: '<nil>'); SQL three-valued logic would not match - recorded, outside the property's 'equal'",
                  "component types other than int/int64/int32/uint*/float32/float64/string/bool/nil ('%T:%v' branch of encodeOne) are outside the model",
-                 "projection of joined columns, WHERE on joined columns and GROUP BY on joined columns are tied by correspondence only"],
+                 "projection of joined columns, WHERE on joined columns and GROUP BY on joined columns are tied by correspondence only",
+                 "GROUP BY <joined column>, CountingWindow(N): the window counts N rows across all groups (C09 finding class qualified-group-column, pinned by test/e2e/join_aggregation_test.go); "
+                 "mode sqlagg models that as coded and its oracle claims only what C16 states: every result aggregates exactly rows with the reported joined value, no row twice"],
     unproved=[],
 )
 META = dict(
